@@ -209,7 +209,9 @@ var Patterns = []Pattern{
 // ActionSets is the menu of nested action lists: (sequence index, child
 // number); child k refers to lookup list index 1+k.
 var ActionSets = [][][2]int{
+	{{1, 1}, {0, 0}}, // default: child 1 (contextual by default) first, then an action at a lower index
 	{{0, 0}, {1, 1}},
+	{{2, 1}, {1, 0}, {0, 1}},
 	{{0, 0}},
 	{{1, 0}},
 	{{1, 0}, {0, 1}},
@@ -306,7 +308,7 @@ func Nested(c *explore.Ctx, gpos bool) (gtab.LookupList, *gdef.Table, *NestedSpe
 	}
 	child0 := menu[(d0+c.Deviate(len(menu), "child 0"))%len(menu)]
 	f0 := Flags[(1+c.Deviate(4, "child 0 flags"))%4]
-	nestedChild1 := c.Deviate(2, "child 1 is itself contextual") == 1
+	nestedChild1 := c.Deviate(2, "child 1 is a simple lookup") == 0
 	child1 := menu[c.Deviate(len(menu), "child 1")]
 	f1 := Flags[c.Deviate(3, "child 1 flags")]
 	extra := c.Deviate(len(menu)+1, "second top-level lookup")
